@@ -68,6 +68,11 @@ func eqValue(a, b any) bool {
 	switch x := a.(type) {
 	case float64:
 		y, ok := b.(float64)
+		if ok && x != x && y != y {
+			// sign and payload of a NaN are not a language-level value (they
+			// depend on which machine instruction produced it)
+			return true
+		}
 		return ok && math.Float64bits(x) == math.Float64bits(y)
 	case bcl.Block:
 		y, ok := b.(bcl.Block)
